@@ -313,6 +313,15 @@ func genLuaYAML(t *rapid.T) LuaYAML {
 			for j := rapid.IntRange(1, 3).Draw(t, "nl"); j > 0; j-- {
 				e.Lines = append(e.Lines, rapid.SampledFrom([]string{"line", "x]]y", "end]", "]", "a]=]b", "]=", "[[", "q\"q", "back\\slash", "it's", "tab\there", "]]", "]==]", "--c", "é"}).Draw(t, "ln"))
 			}
+		case 1:
+			if rapid.Bool().Draw(t, "quoted") {
+				// a quoted YAML string: the quoting style of the input is not the Lua encoder's business,
+				// whatever the text holds (apostrophes, quotation marks, backslashes)
+				e.Kind = rapid.SampledFrom([]string{"single", "double"}).Draw(t, "qstyle")
+				e.Plain = rapid.SampledFrom([]string{"it's", "'", "a 'b' c", "say \"hi\"", "back\\slash", "mix ' and \"", "plain words", "]] '", "x'"}).Draw(t, "qtext")
+				break
+			}
+			fallthrough
 		default:
 			e.Kind = "plain"
 			e.Plain = rapid.SampledFrom(luaPlain).Draw(t, "pl").text
@@ -347,6 +356,12 @@ func checkLuaYAML(c LuaYAML) hx.Verdict {
 				y.WriteString("  " + l + "\n")
 			}
 			wants[e.Key] = want{kind: "s", s: s}
+		case "single":
+			y.WriteString(strconv.Quote(e.Key) + ": '" + strings.ReplaceAll(e.Plain, "'", "''") + "'\n")
+			wants[e.Key] = want{kind: "s", s: e.Plain}
+		case "double":
+			y.WriteString(strconv.Quote(e.Key) + ": " + strconv.Quote(e.Plain) + "\n")
+			wants[e.Key] = want{kind: "s", s: e.Plain}
 		default:
 			y.WriteString(strconv.Quote(e.Key) + ": " + e.Plain + "\n")
 			for _, p := range luaPlain {
